@@ -362,6 +362,11 @@ def run(ctx):
         mutate_mcmc(ctx, blobs)
     mutate_warmup(ctx, False)
     mutate_warmup(ctx, True)
+    # posterior trimming / resampling moves whole records (x, logl, blob, log-weight of one history particle per returned row)
+    from . import c12
+    import itertools
+    ctx.parallel([(lambda c, rs=rs, tr=tr, hb=hb: c12.posterior(c, rs, tr, True, True, hb, replayer="c07_records", records_only=True))
+                  for hb in (False, True) for rs, tr in itertools.product((False, True), repeat=2)])
     for cls in ("RWMRunner", "TPCNRunner"):
         propose_folds(ctx, cls)
         for blobs in (False, True):
